@@ -366,7 +366,9 @@ func newEpisode(seed, nv uint32, active []uint64) *episode {
 }
 
 func toVidx(l []uint64) []eth2p0.ValidatorIndex {
-	out := make([]eth2p0.ValidatorIndex, 0, len(l))
+	// spare capacity, as slices built by append have in production (ActiveValidators.Indices()): an
+	// implementation that keeps such a slice and appends to it writes into memory it shares
+	out := make([]eth2p0.ValidatorIndex, 0, len(l)+5)
 	for _, i := range l {
 		out = append(out, eth2p0.ValidatorIndex(i))
 	}
